@@ -181,6 +181,7 @@ def generate(reg, key, budget=None):
             run.paths += ex.paths
             run.terminals += len(ex.terminals)
             run.solver_calls += ex.solver_calls
+            run.assumption_origins |= ex.origins
             if ex.false_assumes:
                 raise Unsupported(f"assumption evaluated to constant False (contract/type mismatch?): {ex.false_assumes[:3]}")
     except (Unsupported, Budget, ExtractError) as e:
@@ -567,7 +568,8 @@ def verify_function(reg, key, timeout_s=10.0, budget=None, wall_budget_s=None):
                 "traceback": traceback.format_exc(), "obligations": [], "paths": 0, "crash": True,
                 "fingerprint": None, "wall_s": time.time() - t0}
     out = {"key": key, "error": run.error, "paths": run.paths, "fingerprint": run.fingerprint,
-           "obligations": [], "solver_calls": run.solver_calls, "gen_s": round(run.gen_s, 3)}
+           "obligations": [], "solver_calls": run.solver_calls, "gen_s": round(run.gen_s, 3),
+           "assumption_origins": sorted(run.assumption_origins)}
     canary_refuted = 0
     real = []
     for ob in run.obligations:
